@@ -13,6 +13,8 @@ Import ListNotations.
 Require Import Grist.Model.JsonImport Grist.Model.JsonImportSpec.
 Require Import Grist.Proofs.JsonImport_proofs Grist.Proofs.JsonImport_final_proofs.
 Require Import Grist.Proofs.JsonImport_named_proofs.
+Require Import Grist.Model.JsonImportPy GristGen.JsonImport_gen Grist.Model.JsonImportCode.
+Require Import Grist.Proofs.JsonImport_bridge Grist.Proofs.JsonImport_bridge_walk Grist.Proofs.JsonImport_code_proofs.
 Open Scope Z_scope.
 
 Definition inc_of (incs excs : str) : str -> bool := is_included (split_opt incs) (split_opt excs).
@@ -203,6 +205,76 @@ Proof.
   eexists. eexists. split; [vm_compute; right; left; reflexivity|]. split; [reflexivity|]. split; [|reflexivity].
   intros x Hx. vm_compute in Hx. destruct Hx as [<-|[<-|[]]]; reflexivity.
 Qed.
+
+(* ================= the tie to the source: functions regenerated from import_json.py on every run =================
+   GristGen.JsonImport_gen is written by harness/ij2v.py from /repo/sandbox/grist/imports/import_json.py each time the
+   check runs.  The bridge: every generated function is pointwise the model's function. *)
+
+Theorem C33_bridge_options : forall s, gen_init_includes_opt s = split_opt s /\ gen_init_excludes_opt s = split_opt s.
+Proof. intros s. split; [apply bridge_init_includes|apply bridge_init_excludes]. Qed.
+
+Theorem C33_bridge_is_included : forall incs excs path, gen_is_included incs excs path = is_included incs excs path.
+Proof. exact bridge_is_included. Qed.
+
+Theorem C33_bridge_first_available_key : forall (V : Type) (dct : list (str * V)) name,
+  gen_first_available_key dct name = first_available_key (map fst dct) name.
+Proof. exact @bridge_first_available_key. Qed.
+
+Theorem C33_bridge_grist_type : forall c, gen_grist_type c = grist_type c.
+Proof. exact bridge_grist_type. Qed.
+
+Theorem C33_bridge_dump_value : forall c, gen_dump_value c = dump_value c.
+Proof. exact bridge_dump_value. Qed.
+
+Theorem C33_bridge_transpose : forall rows, map col_of (gen_transpose rows) = transpose rows.
+Proof. exact bridge_transpose. Qed.
+
+Theorem C33_bridge_dump_table : forall name rows, gen_dump_table name rows = dumped_triple (dump_rtable (name, rows)).
+Proof. exact bridge_dump_table. Qed.
+
+Theorem C33_bridge_dictify : forall v, gen_dictify v = fields v.
+Proof. exact bridge_dictify. Qed.
+
+(* Tables.add_row: the generated body, given for its recursive calls anything that agrees with the model on the
+   items directly inside v, does to the log and returns what the model does (key sorting included) ... *)
+Theorem C33_bridge_add_row_body : forall incs excs rec T v p st,
+  (forall c, In c (children v) -> forall T' p' st', rec T' c p' st' = model_rec incs excs T' c p' st') ->
+  gen_add_row_body incs excs rec T v p st = model_rec incs excs T v p st.
+Proof. exact gen_body_model. Qed.
+
+(* ... hence the generated recursion, with more fuel than the height of the value, is the model *)
+Theorem C33_bridge_add_row : forall incs excs fuel v, (jheight v < fuel)%nat ->
+  forall T p st, gen_add_row fuel incs excs T v p st = model_rec incs excs T v p st.
+Proof. exact gen_add_row_model. Qed.
+
+(* the generated functions composed along dumps()/Tables.dumps() (pinned text) give the model's dumped tables *)
+Theorem C33_bridge_import : forall incs excs name d,
+  code_import incs excs name d = map dumped_triple (import_ttables incs excs name d).
+Proof. exact code_import_model. Qed.
+
+(* ---- C33_rectangular about the generated _dump_table: whatever rows it is given, every column it emits has one
+   entry per row, and there is one table_data entry per column_metadata entry *)
+Theorem C33_code_rectangular : forall name (rows : list grow),
+  let '(meta, data, nm) := gen_dump_table name rows in
+  nm = name /\ length meta = length data /\ forall col, In col data -> length col = length rows.
+Proof. exact code_rectangular. Qed.
+
+(* ---- C33_array_elements_point_back about the generated pipeline: in the output of the generated functions the
+   element's row r' of table T_k has, in the last (parent) column, the row id r of the item's row *)
+Theorem C33_code_array_elements_point_back : forall incs excs name d v T k l e,
+  wf_json d -> item_at d name v T -> In (k, JArr l) (fields v) -> In e l ->
+  inc_of incs excs T = true -> inc_of incs excs (sub T k) = true ->
+  exists r r',
+    repr (inc_of incs excs) (import_ttables incs excs name d) v T (Some r) /\
+    repr (inc_of incs excs) (import_ttables incs excs name d) e (sub T k) (Some r') /\
+    code_parent_entry (code_import incs excs name d) (sub T k) r' = Some (DInt (Z.of_nat r)).
+Proof. exact code_array_element. Qed.
+
+Example C33_code_nonvacuous :
+  code_import [] [] sT w_collide = map dumped_triple (import_ttables [] [] sT w_collide) /\
+  code_parent_entry (code_import [] [] sT w_collide) (sub (sub sT sa) sb) 1 = Some (DInt 1) /\
+  length (code_import [] [] sT w_collide) = 3%nat.
+Proof. vm_compute. repeat split. Qed.
 
 (* ================= non-vacuity of the hypotheses of the main theorems ================= *)
 
